@@ -289,8 +289,36 @@ func equalChains(a, b [][]byte) bool {
 
 // DataFlows writes k payloads each way and requires them to be read intact.
 func DataFlows(rc *RunCtx, pair *Pair, k int) bool {
+	return dataFlowsWith(rc, pair, k, nil, nil)
+}
+
+// dataFlowsWith is DataFlows with readers that may already be running (and may already hold
+// payloads listed in pair.Early).
+func dataFlowsWith(rc *RunCtx, pair *Pair, k int, rdC, rdS *Reader) bool {
 	s := rc.S
-	rdC, rdS := pair.StartReader("c"), pair.StartReader("s")
+	if rdC == nil {
+		rdC = pair.StartReader("c")
+	}
+	if rdS == nil {
+		rdS = pair.StartReader("s")
+	}
+	late := func(got [][]byte) [][]byte {
+		var out [][]byte
+		seen := map[string]bool{}
+		for _, g := range got {
+			if pair.Early[string(g)] {
+				if seen[string(g)] {
+					out = append(out, g) // a duplicate of an early payload is not excused
+				}
+				seen[string(g)] = true
+
+				continue
+			}
+			out = append(out, g)
+		}
+
+		return out
+	}
 	var sent [2][][]byte
 	for i := 0; i < k; i++ {
 		pc, ps := Payload("c", 9, i, 30+i), Payload("s", 9, i, 30+i)
@@ -306,14 +334,15 @@ func DataFlows(rc *RunCtx, pair *Pair, k int) bool {
 			return false
 		}
 	}
-	s.Run(func() bool { return len(rdS.Got) >= k && len(rdC.Got) >= k }, 10*time.Second)
-	if len(rdS.Got) != k || len(rdC.Got) != k {
-		rc.Violate("no-data-flow", "after a successful handshake on a reliable link the server read %d/%d and the client %d/%d payloads", len(rdS.Got), k, len(rdC.Got), k)
+	s.Run(func() bool { return len(late(rdS.Got)) >= k && len(late(rdC.Got)) >= k }, 10*time.Second)
+	gotS, gotC := late(rdS.Got), late(rdC.Got)
+	if len(gotS) != k || len(gotC) != k {
+		rc.Violate("no-data-flow", "after a successful handshake on a reliable link the server read %d/%d and the client %d/%d payloads", len(gotS), k, len(gotC), k)
 
 		return false
 	}
 	for i := 0; i < k; i++ {
-		if !bytes.Equal(rdS.Got[i], sent[0][i]) || !bytes.Equal(rdC.Got[i], sent[1][i]) {
+		if !bytes.Equal(gotS[i], sent[0][i]) || !bytes.Equal(gotC[i], sent[1][i]) {
 			rc.Violate("data-altered", "payload %d differs from what was written", i)
 
 			return false
@@ -354,6 +383,28 @@ func c01Run(rc *RunCtx, params any) {
 
 		return
 	}
+	// each side writes as soon as its own handshake returns (the owner of the last flight does so
+	// while the peer may still be retransmitting); these payloads may be lost under the faults
+	pair.Early = map[string]bool{}
+	var rdC, rdS *Reader
+	pair.OnHsDone = func(ep string, err error) {
+		if err != nil {
+			return
+		}
+		if ep == "c" {
+			rdC = pair.StartReader("c")
+		} else {
+			rdS = pair.StartReader("s")
+		}
+		for k := 0; k < 2; k++ {
+			pl := Payload(ep, 6, k, 25+k)
+			pair.Early[string(pl)] = true
+			if _, werr := pair.ConnOf(ep).Write(pl); werr != nil {
+				return
+			}
+		}
+		s.Probe("early-write-after-own-handshake")
+	}
 	pair.StartHandshakes(0)
 	s.Run(pair.BothDone, 10*time.Minute)
 	rc.R.NonTriv = true
@@ -381,7 +432,7 @@ func c01Run(rc *RunCtx, params any) {
 		// wire: records towards X carry X's CID
 		cv, sv := dtls.VerifSessionOf(pair.Client), dtls.VerifSessionOf(pair.Server)
 		before := len(n.Emits)
-		if DataFlows(rc, pair, 3) {
+		if dataFlowsWith(rc, pair, 3, rdC, rdS) {
 			for _, em := range n.Emits[before:] {
 				want := sv.LocalCID
 				if em.Ep == "s" {
